@@ -48,7 +48,7 @@ pub fn one_case(rng: &mut Rng, id: String, big: bool) -> Case {
     let mut ops = Vec::new();
     let nops = 2 + rng.below(8);
     for _ in 0..nops {
-        match rng.below(9) {
+        match rng.below(10) {
             0 => {
                 ops.push("connect_bad".to_string());
                 let r = ip::lib_scope(|| IpcSender::<u64>::connect(format!("/nonexistent-{}/socket", rng.next())));
@@ -139,8 +139,28 @@ pub fn one_case(rng: &mut Rng, id: String, big: bool) -> Case {
                 let (tx, rx) = ipc::channel::<Vec<IpcSharedMemory>>().unwrap();
                 let two = vec![copies[0].clone(), copies[copies.len() - 1].clone()];
                 ip::lib_scope(|| tx.send(two).unwrap());
-                let got = ip::lib_scope(|| rx.recv().unwrap());
-                check_cloexec(&base, &mut case, "recv of a message with regions");
+                // the receive call varies: descriptors installed by any of them must be close-on-exec
+                let how = rng.below(4);
+                ops.push(format!("recv_how={}", how));
+                let (got, rx) = match how {
+                    0 => (ip::lib_scope(|| rx.recv().unwrap()), Some(rx)),
+                    1 => (ip::lib_scope(|| rx.try_recv().unwrap()), Some(rx)),
+                    2 => (ip::lib_scope(|| rx.try_recv_timeout(std::time::Duration::from_secs(5)).unwrap()), Some(rx)),
+                    _ => {
+                        let mut set = ip::lib_scope(|| IpcReceiverSet::new().unwrap());
+                        ip::lib_scope(|| set.add(rx).unwrap());
+                        let mut out = None;
+                        for r in ip::lib_scope(|| set.select().unwrap()) {
+                            if let ipc::IpcSelectionResult::MessageReceived(_, m) = r {
+                                out = Some(ip::lib_scope(|| m.to::<Vec<IpcSharedMemory>>().unwrap()));
+                            }
+                        }
+                        check_cloexec(&base, &mut case, "select of a message with regions");
+                        ip::lib_scope(|| drop(set));
+                        (out.expect("select did not deliver the message"), None)
+                    },
+                };
+                check_cloexec(&base, &mut case, ["recv", "try_recv", "try_recv_timeout", "select"][how as usize]);
                 // drop the sender's copies in a random order, then read what was received
                 while !copies.is_empty() {
                     let i = rng.below(copies.len() as u64) as usize;
@@ -151,7 +171,9 @@ pub fn one_case(rng: &mut Rng, id: String, big: bool) -> Case {
                     ip::lib_scope(|| drop(c));
                 }
                 drop(tx);
-                ip::lib_scope(|| drop(rx));
+                if let Some(rx) = rx {
+                    ip::lib_scope(|| drop(rx));
+                }
                 for g in &got {
                     if g.len() != len || g[..] != expect[..] {
                         case.fail(format!("received region of length {} differs (got {} bytes)", len, g.len()));
@@ -202,6 +224,30 @@ pub fn one_case(rng: &mut Rng, id: String, big: bool) -> Case {
                 ip::lib_scope(|| drop(set));
                 drop(txs);
             },
+            8 => {
+                // a send whose serialisation fails after k regions and a sender were visited: nothing may stay behind
+                let k = rng.below(3) as usize;
+                ops.push(format!("failed_serialisation regions={}", k));
+                let (tx, rx) = ipc::channel::<crate::value::Dyn>().unwrap();
+                let (atx, arx) = ipc::channel::<u64>().unwrap();
+                let mut parts = Vec::new();
+                for j in 0..k {
+                    parts.push(crate::value::Value::Shm(j, IpcSharedMemory::from_bytes(&rng.bytes(100 + j))));
+                }
+                parts.push(crate::value::Value::Sender(0, atx.clone().to_opaque()));
+                parts.push(crate::value::Value::Fail);
+                let r = ip::lib_scope(|| tx.send(crate::value::Dyn(crate::value::Value::Tup(parts))));
+                if r.is_ok() {
+                    case.fail("a send whose serialisation fails reported success".into());
+                }
+                drop(atx);
+                match arx.try_recv() {
+                    Err(ipc::TryRecvError::IpcError(ipc::IpcError::Disconnected)) => {},
+                    other => case.fail(format!("a sender visited by a failed serialisation is still alive: {:?}", other)),
+                }
+                drop(tx);
+                ip::lib_scope(|| drop(rx));
+            },
             _ => {
                 ops.push("send_to_closed".to_string());
                 let (tx, rx) = ipc::channel::<(u64, Option<IpcSender<u64>>)>().unwrap();
@@ -244,6 +290,9 @@ pub fn one_case(rng: &mut Rng, id: String, big: bool) -> Case {
         }
         if !l.bad_unmaps.is_empty() {
             case.fail(format!("munmap with a length different from the mapping: {:?}", &l.bad_unmaps[..l.bad_unmaps.len().min(4)]));
+        }
+        if !l.not_cloexec.is_empty() {
+            case.fail(format!("descriptors entered the process without close-on-exec (descriptor, how): {:?}", l.not_cloexec.iter().take(4).collect::<Vec<_>>()));
         }
     }
     case.pair("noop".into(), "ok".into());
